@@ -91,18 +91,20 @@ class Writer:
         """
         word_format = {8: 'B', 16: 'H', 32: 'L', 64: 'Q'}[self.word_size]
 
+        # build all the bytes before touching the output file, so a failure leaves no partial file behind
+        fjm_header = pack(_header_base_format, FJ_MAGIC, self.word_size, self.version.value, len(self.segments))
+        if FJMVersion.BaseVersion != self.version:
+            fjm_header += pack(_header_extension_format, self.flags, self.reserved)
+
+        fjm_segments = b''.join(pack(_segment_format, *segment) for segment in self.segments)
+
+        fjm_data = pack(f'<{len(self.data)}{word_format}', *self.data)
+        if FJMVersion.CompressedVersion == self.version:
+            fjm_data = self._compress_data(fjm_data)
+
         with open(self.output_file, 'wb') as f:
-            f.write(pack(_header_base_format, FJ_MAGIC, self.word_size, self.version.value, len(self.segments)))
-            if FJMVersion.BaseVersion != self.version:
-                f.write(pack(_header_extension_format, self.flags, self.reserved))
-
-            for segment in self.segments:
-                f.write(pack(_segment_format, *segment))
-
-            fjm_data = pack(f'<{len(self.data)}{word_format}', *self.data)
-            if FJMVersion.CompressedVersion == self.version:
-                fjm_data = self._compress_data(fjm_data)
-
+            f.write(fjm_header)
+            f.write(fjm_segments)
             f.write(fjm_data)
 
     def get_segment_addresses_repr(self, word_start_address: int, word_length: int) -> str:
@@ -196,6 +198,11 @@ class Writer:
                 f"(in {segment_addresses_str})."
             )
 
+        if segment_start < 0 or segment_start + segment_length >= (1 << 64):
+            raise FlipJumpWriteFjmException(
+                f"segment addresses must be non-negative and fit in 64 bits (in {segment_addresses_str})."
+            )
+
         if data_length % 2 == 1:
             raise FlipJumpWriteFjmException(
                 f"data-length must be even - an integer number of ops (in {segment_addresses_str})."
@@ -220,6 +227,13 @@ class Writer:
         @param data: [in]: a list of words
         @return: the data start index
         """
+        if data and (min(data) < 0 or max(data) >= (1 << self.word_size)):
+            bad_word = next(word for word in data if word < 0 or word >= (1 << self.word_size))
+            raise FlipJumpWriteFjmException(
+                f"data word {bad_word} doesn't fit in the {self.word_size}-bits memory-width "
+                f"(must be in [0, {hex(1 << self.word_size)}))."
+            )
+
         data_start = len(self.data)
         self.data += data
         return data_start
